@@ -13,7 +13,7 @@ PROPERTY = 'C03'
 META = {'assumptions': [
     'object-address dependent iteration order of set(groups) (Group.__hash__ is id()) is modelled as a schedule: every set built in '
     'propka.conformation_container iterates in an order chosen by the explorer',
-    'not decided here (operating system / interpreter behaviour with no symbolic content): str hash-seed randomisation, working directory, zip archives',
+    'not decided here (operating system / interpreter behaviour with no symbolic content): zip archives; the string hash seed is varied concretely (O6), not symbolically',
 ]}
 
 
@@ -239,22 +239,25 @@ def _fresh_main():
     print('SNAPSHOT ' + json.dumps(snapshot(M.run(M.text(sname), args=list(sargs)))))
 
 
-def fresh(subject, history):
+def fresh(subject, history, hash_seed=None):
     """the snapshot of `subject` computed in a newly started interpreter (plain package, nothing imported or computed
     before) after the given history"""
     import json
     import subprocess
     import sys
     key = json.dumps({'subject': subject, 'history': history})
-    if key not in _FRESH:
+    ckey = (key, hash_seed)
+    if ckey not in _FRESH:
         env = dict(os.environ)
+        if hash_seed is not None:
+            env['PYTHONHASHSEED'] = str(hash_seed)
         env['PYTHONPATH'] = os.pathsep.join([os.path.dirname(os.path.dirname(os.path.abspath(__file__))), H.REPO])
         r = subprocess.run([sys.executable, '-c', 'from harness import c03; c03._fresh_main()', key], env=env, capture_output=True, text=True, timeout=600)
         line = [l for l in r.stdout.splitlines() if l.startswith('SNAPSHOT ')]
         if not line:
             raise RuntimeError('fresh interpreter failed: ' + r.stderr[-400:])
-        _FRESH[key] = json.loads(line[-1][9:])
-    return _FRESH[key]
+        _FRESH[ckey] = json.loads(line[-1][9:])
+    return _FRESH[ckey]
 
 
 def o_history_fresh(ctx):
@@ -269,6 +272,18 @@ def o_history_fresh(ctx):
     ctx.claim('values-independent-of-history', after['values'] == alone['values'],
               detail='differs: %r' % ([x for x in after['values'] if x not in alone['values']][:3],))
     ctx.claim('text-independent-of-history', after['summary'] == alone['summary'] and after['determinants'] == alone['determinants'])
+
+
+def o_hash_seed(ctx):
+    """the interpreter's string-hash seed (random per process by default) has no influence: the same structure in fresh
+    interpreters started with PYTHONHASHSEED = 0..7 gives the same values and text.  Subjects include a file with three
+    conformations in which a residue exists only in the second and third (differing) ones."""
+    subject = list(ctx.choice('subject', [('tri_SER|BC@37', []), ('pair_GLU_ARG_TYR', []), ('lig_MTX', []), ('pep8', ['-d'])]))
+    seed = ctx.choice('hash_seed', [1, 2, 3, 4, 5, 6, 7])
+    ref = fresh(subject, [], hash_seed=0)
+    got = fresh(subject, [], hash_seed=seed)
+    ctx.claim('values-independent-of-hash-seed', got['values'] == ref['values'], detail='seed %d differs: %r' % (seed, [x for x in got['values'] if x not in ref['values']][:2]))
+    ctx.claim('text-independent-of-hash-seed', got['summary'] == ref['summary'] and got['determinants'] == ref['determinants'])
 
 
 def o_path_vs_stream(ctx):
@@ -323,16 +338,24 @@ def o_path_vs_stream(ctx):
         shutil.rmtree(d, ignore_errors=True)
 
 
+BATCH_NAMES = ['nterm_ASP_LYS', 'pep8', 'pair_ASP_ARG', 'pair_ASP_ASP']
+BATCH_OPTIONS = [['-d'], [], ['-d', '--protonate-all'], ['-i', 'A:29,A:30'], ['-c', 'A']]
+
+
 def o_batch_inputs(ctx):
+    return mk_batch_inputs(BATCH_NAMES, BATCH_OPTIONS)(ctx)
+
+
+def mk_batch_inputs(names, option_sets):
+  def body(ctx):
     """several inputs in one invocation of main(): each input's output files are those of the input processed alone
     with the same options (the Options and Parameters objects are shared by the inputs of an invocation)"""
     import glob
     import shutil
     import propka.run as R
-    names = ['nterm_ASP_LYS', 'pep8', 'pair_ASP_ARG', 'lig_MTX']
     first = ctx.choice('first_input', names)
     second = ctx.choice('second_input', [n for n in names])
-    opts = ctx.choice('options', [['-d'], [], ['-d', '--protonate-all'], ['-i', 'A:29,A:30']])
+    opts = ctx.choice('options', option_sets)
     orig_rpf = R.read_parameter_file
 
     def rpf(input_file, parameters):
@@ -375,6 +398,7 @@ def o_batch_inputs(ctx):
     finally:
         shutil.rmtree(d1, ignore_errors=True)
         shutil.rmtree(d2, ignore_errors=True)
+  return body
 
 
 def o_nccg_purity(ctx):
@@ -526,9 +550,12 @@ def obligations(tier):
     obs.append(Obligation('O4-singleton-purity[PROTONATOR]', o_protonator_purity,
                           code=['propka/group.py:PROTONATOR', 'propka/protonate.py:Protonate.protonate_atom'],
                           bounds='amide N at symbolic x after protonating an unknown element / a charged N / nothing', claim_doc='same hydrogen as a fresh Protonate object'))
+    obs.append(Obligation('O6-hash-seed', o_hash_seed, code=['propka/molecular_container.py:MolecularContainer.top_up_conformations', 'propka/run.py:single (whole pipeline)'],
+                          bounds='4 subjects (one with three conformations, a residue only in the 2nd and 3rd) x PYTHONHASHSEED 1..7 against seed 0, each in a fresh interpreter (28 concrete comparisons)',
+                          kind='table-check', claim_doc='values and text identical for every hash seed', max_paths=200, split_input=('subject', 4), wall_s=170))
     obs.append(Obligation('O5-several-inputs-per-invocation', o_batch_inputs, code=['propka/run.py:main', 'propka/lib.py:loadOptions', 'propka/molecular_container.py:MolecularContainer.__init__',
                                                                                  'propka/molecular_container.py:MolecularContainer.find_non_covalently_coupled_groups', 'propka/molecular_container.py:MolecularContainer.write_pka'],
-                          bounds='4 x 4 ordered pairs of micro-structures x 4 option sets (-d, none, -d --protonate-all, -i), coupling thresholds relaxed so that some inputs have coupled groups and some have none (64 concrete invocations)',
+                          bounds='4 x 4 ordered pairs of micro-structures x 5 option sets (-d, none, -d --protonate-all, -i, -c A), coupling thresholds relaxed so that some inputs have coupled groups and some have none (80 concrete invocations)',
                           kind='table-check', claim_doc='the files written for the second input, and their text apart from the date line, are those of the input run alone', max_paths=400, split_input=('first_input', 4), wall_s=170))
     obs.append(Obligation('O3-path-stream-cwd', o_path_vs_stream, code=['propka/input.py:open_file_for_reading', 'propka/input.py:read_molecule_file', 'propka/run.py:single',
                                                                         'propka/molecular_container.py:MolecularContainer.write_pka'],
